@@ -648,11 +648,14 @@ PROPS["C08"] = {
     "level_text": "Proved in Lean (requests as JSON values, any hash family, configuration and oracle): a create request built by NewCreateRequest from valid inputs is accepted by a "
                   "parser whose protocol names the builder's hash algorithm, and the parsed operation carries the requested delta, recovery commitment and anchor origin, its suffix being "
                   "the multihash of its suffix data; anchored and applied to the empty state it yields exactly the composer's result for the caller's patches and the caller's commitments "
-                  "(built_create_yields). Update, recover and deactivate requests built by the builders are accepted (update/recover/deactivate_built_accepted) given one explicit "
-                  "hypothesis: that the parser's signed-data decoder reads the compact JWS produced by SignModel back as the signed model (JWS framing, C15, plus the JSON text round "
-                  "trip, C05; checked on every generated request by the stream) — everything else the parser demands (reveal value, key freshness, delta, hashes, windows) is derived "
-                  "from the builder's own checks. Recover additionally needs update != recovery commitment, which the builder does not enforce (known finding D11). Builders refuse equal "
-                  "commitments (create), commitments under another or an unsupported hash algorithm, key reuse (update, recover), missing or double content, bad signers. "
+                  "(built_create_yields). Update, recover and deactivate requests built by the builders are accepted: without an anchoring window (the Sidetree client never sets one; anchor "
+                  "origin absent or a string; protected header names and values plain strings) unconditionally in the inputs (update/recover/deactivate_built_accepted_unwindowed) - "
+                  "the read-back of the compact JWS is proved (Lemmas/Framing.lean: three dot-free base64url segments, UTF-8, Go's header marshalling, the JSON reader and RFC 8785 "
+                  "give signModel_reads_back, and decoding the normal form of the signed model yields the signed fields); with a window the same theorems hold under that read-back as "
+                  "an explicit hypothesis (the integer members need the number round trip, which is validated by the stream, not proved). Everything else the parser demands (reveal "
+                  "value, key freshness, delta, hashes, windows) is derived from the builders' own checks. Recover additionally needs update != recovery commitment, which the builder "
+                  "does not enforce (known finding D11). Builders refuse equal commitments (create), commitments under another or an unsupported hash algorithm, key reuse (update, "
+                  "recover), missing or double content, bad signers. "
                   "GetAnchoredOperation: for every accepted request of each type the re-assembled request is parsed, in the parser's and in the applier's mode, to the very same "
                   "operation (anchored_create/update/recover/deactivate) and the applier returns the same outcome on it as on the original for every state (anchored_applies_alike).",
     "level_note": "Trusted: Lean kernel; extractor; harness (table signer, did-go document construction); kms-go / did-go JSON marshalling of keys and endpoints is taken as given (the "
